@@ -351,6 +351,8 @@ def configs(ctx):
         add("versioned", 2, 1, ("commit", "rollback"), "line", 1, 1)
         add("versioned", 3, 0, ("commit", "rollback", "commit-with"), "sync", 1, 3)
         add("versioned", 3, 1, ("commit-with", "raise-with", "commit"), "sync", 0, 2)
+        # a reader that comes and goes while one writer is open and two are queued
+        add("versioned", 3, 1, ("commit", "commit", "commit"), "sync", 1, 1)
         add("btree", 3, 0, ("commit", "commit", "rollback"), "line", 1, 1)
         add("btree-small-t", 2, 1, ("commit", "rollback"), "sync", 2, 2)
     else:
